@@ -505,7 +505,8 @@ class Operator:
             )
             with self.timer.getTimer(interactionMessage):
                 interactMethod = getattr(interface, interactMethodName)
-                halt = halt or interactMethod(*args)
+                # call every interface even after one asked for a halt; `halt or f()` would skip f
+                halt = interactMethod(*args) or halt
 
             if self.cs["debugDB"]:
                 self._debugDB(interactionName, interface.name, statePointIndex)
